@@ -7,6 +7,7 @@
 -/
 import H2.Proofs.Shapes
 import H2.Proofs.Send
+import H2.Proofs.StreamLemmas
 
 namespace H2.C20
 open H2 H2.Gen H2.Conn
@@ -63,6 +64,132 @@ theorem C20_wrapper (c1 : Conn) (sid : Int)
   rw [wp_prepare_eq [Frame.rstStream sid (streamClosedErrorCode : Int)] _ [b] (by simp) (by simp [hb])
     (by simp only [List.all_cons, List.all_nil, Bool.and_true, hlen, decide_eq_true_eq]; omega)]
   cases c1; simp
+
+/-- `process_bytes` never raises (generated code; the full statement is C04_process_bytes) -/
+theorem C04pb (w : WindowManager) (n : Int) :
+    match w.process_bytes n with
+    | (.ok _, _) => True
+    | (.error _, _) => False := by
+  unfold WindowManager.process_bytes WindowManager.maybe_update_window
+  grind
+
+/-- looking up a stream that is no longer in the table, at or below the high-water mark of its side: StreamClosedError
+    (never NoSuchStreamError), nothing changed -/
+theorem getStreamById_forgotten {Q : Unit → Conn → Prop} {E : Exc → Conn → Prop} (c : Conn) (sid : Int)
+    (hno : hasStream c sid = false)
+    (hold : sid ≤ (if streamIdIsOutbound c sid then c.highestOut else c.highestIn)) :
+    wp (getStreamById sid) Q E c = E (mkStreamClosed sid) c := by
+  rw [wp_getStreamById_eq, hno]
+  simp only [Bool.false_eq_true, if_false]
+  have : ¬ (sid > (if streamIdIsOutbound c sid = true then c.highestOut else c.highestIn)) := by
+    have h := hold
+    omega
+  rw [if_neg this]
+
+/-- **WINDOW_UPDATE** for a stream already cleaned out of the table: ignored — no frame, no event, no exception -/
+theorem C20_forgotten_window_update (c : Conn) (sid incr : Int) (hs : sid ≠ 0)
+    (hno : hasStream c sid = false)
+    (hold : sid ≤ (if streamIdIsOutbound c sid then c.highestOut else c.highestIn))
+    (hopen : c.cstate = .CLIENT_OPEN ∨ c.cstate = .SERVER_OPEN) :
+    wp (receiveWindowUpdateFrame sid incr) (fun fe c' => fe = ([], []) ∧ c' = c) (fun _ _ => False) c := by
+  have htab : connTable c.cstate .RECV_WINDOW_UPDATE = some c.cstate := by
+    rcases hopen with h | h <;> simp [h, connTable]
+  unfold receiveWindowUpdateFrame
+  wps
+  rw [wp_connInput_ok _ _ _ htab]
+  show wp _ _ _ c
+  try wps
+  have hs' : (sid != 0) = true := by simpa using hs
+  simp only [hs', if_true]
+  try wps
+  rw [getStreamById_forgotten c sid hno hold]
+  have hinst : (mkStreamClosed sid).isInstance .StreamClosedError = true := rfl
+  simp only [hinst, if_true]
+  try wps
+  exact ⟨trivial, trivial⟩
+
+/-- **RST_STREAM** for a stream already cleaned out of the table: ignored likewise (StreamClosedError is a
+    NoSuchStreamError, which the handler swallows) -/
+theorem C20_forgotten_rst_stream (c : Conn) (sid code : Int)
+    (hno : hasStream c sid = false)
+    (hold : sid ≤ (if streamIdIsOutbound c sid then c.highestOut else c.highestIn))
+    (hopen : c.cstate = .CLIENT_OPEN ∨ c.cstate = .SERVER_OPEN) :
+    wp (receiveRstStreamFrame sid code) (fun fe c' => fe = ([], []) ∧ c' = c) (fun _ _ => False) c := by
+  have htab : connTable c.cstate .RECV_RST_STREAM = some c.cstate := by
+    rcases hopen with h | h <;> simp [h, connTable]
+  unfold receiveRstStreamFrame
+  wps
+  rw [wp_connInput_ok _ _ _ htab]
+  show wp _ _ _ c
+  try wps
+  rw [getStreamById_forgotten c sid hno hold]
+  have hinst : (mkStreamClosed sid).isInstance .NoSuchStreamError = true := rfl
+  simp only [hinst, if_true]
+  try wps
+  simp only [Bool.false_eq_true, if_false]
+  try wps
+  exact ⟨trivial, trivial⟩
+
+/-- **DATA** for a stream already cleaned out of the table, fitting the connection window: the connection window is
+    charged and — "DATA among them still replenishes the connection window" — the bytes are handed straight back to the
+    window manager as processed (`process_bytes`, whose WINDOW_UPDATE, if any, is written in front); the frame is
+    answered with RST_STREAM(STREAM_CLOSED) for the handler to write; no event, no exception, the stream table as it
+    was -/
+theorem C20_forgotten_data (c : Conn) (sid : Int) (payload : Bytes) (es : Bool) (fcl : Int)
+    (hno : hasStream c sid = false)
+    (hold : sid ≤ (if streamIdIsOutbound c sid then c.highestOut else c.highestIn))
+    (hopen : c.cstate = .CLIENT_OPEN ∨ c.cstate = .SERVER_OPEN)
+    (hfits : (c.inWM.window_consumed fcl).1 = .ok none) :
+    wp (receiveDataFrame sid payload es fcl)
+      (fun fe c' =>
+        fe.2 = [] ∧
+        (∃ wu, fe.1 = wu ++ [Frame.rstStream sid (streamClosedErrorCode : Int)] ∧
+          ∀ f ∈ wu, ∃ n, f = Frame.windowUpdate 0 n) ∧
+        c'.streams = c.streams ∧
+        c'.inWM = ((c.inWM.window_consumed fcl).2.process_bytes fcl).2)
+      (fun _ _ => False) c := by
+  have htab : connTable c.cstate .RECV_DATA = some c.cstate := by
+    rcases hopen with h | h <;> simp [h, connTable]
+  unfold receiveDataFrame
+  wps
+  rw [wp_connInput_ok _ _ _ htab]
+  show wp _ _ _ c
+  try wps
+  rw [wp_onConnWM]
+  cases hcons : c.inWM.window_consumed fcl with
+  | mk r w =>
+    rw [hcons] at hfits
+    simp only at hfits
+    subst hfits
+    simp only
+    try wps
+    have hno' : hasStream { c with inWM := w } sid = false := hno
+    rw [getStreamById_forgotten _ sid hno' hold]
+    have hinst : (mkStreamClosed sid).isInstance .StreamClosedError = true := rfl
+    simp only [hinst, if_true]
+    try wps
+    rw [wp_onConnWM]
+    have hpb := C04pb w fcl
+    cases hp : w.process_bytes fcl with
+    | mk r2 w2 =>
+      rw [hp] at hpb
+      cases r2 with
+      | error e => exact hpb.elim
+      | ok v =>
+        simp only
+        try wps
+        simp only [mkStreamClosed, Option.getD]
+        refine ⟨rfl, ⟨_, rfl, ?_⟩, rfl, ?_⟩
+        rotate_left
+        · rfl
+        intro f hf
+        cases v with
+        | none => simp at hf
+        | some n =>
+          simp only at hf
+          split at hf
+          · simp only [List.mem_singleton] at hf; exact ⟨n, hf⟩
+          · simp at hf
 
 /-- the same wrapper for StreamIDTooLowError (what a frame for a stream that is no longer in the table raises): for a
     stream that was closed by reset, exactly one RST_STREAM(STREAM_CLOSED), no events, nothing raised -/
